@@ -280,7 +280,8 @@ def random_history(rng):
         if r < 34:
             cand = ents if rng.chance(60) else ([k for k in ents if sp.kind[k] == "data"] or ents)
             e = _pick(rng, cand)
-            emit({"op": "remove_ws", "e": e})
+            if emit({"op": "remove_ws", "e": e}) == "protected":
+                break  # refused half-way (protected descendant): the text does not say what the state is; stop here
         elif r < 52:
             emit({"op": "remove_parent", "e": _pick(rng, ents)})
         elif r < 60:
@@ -605,14 +606,24 @@ def _hist_term(case):
     return clist(_op_term(op) for op in case["ops"])
 
 
-HMOD = (1 << 61) - 1
+HMASK = (1 << 64) - 1
+
+
+def _pack(chunk):
+    a = 0
+    for x in chunk:
+        a = (a << 8) | x
+    return a
 
 
 def digest(seq):
     h = 7
-    for x in seq:
-        h = (h * 1000003 + x + 1) % HMOD
-    return h
+    seq = list(seq)
+    i = 0
+    while len(seq) - i >= 8:
+        h = (h * 6364136223846793005 + _pack(seq[i:i + 8]) + 1) & HMASK
+        i += 8
+    return (h * 6364136223846793005 + _pack(seq[i:]) + 1) & HMASK
 
 
 def final_ser(obs):
